@@ -27,6 +27,7 @@ RULE = (
     '--neutraln/--neutralc).  blank-table: EXHAUSTIVE layouts of two chains without chain ids (5 id '
     'layouts x last chain closed by TER or END only x first chain with/without OXT x 3 force '
     'fields).  cyclic: also with one ring member that has no definition.'
+    ' big: protein chains and strands in ONE file, 4-9 / 27-30 chains, 53-56 OXT-terminated copies under one chain id, one chain of 10-24 residues, a peptide in 60-200 waters - per-residue and per-strand rules on the same run.  Waters carry the id of a protein chain one time in five (a chain may then START with a water).'
 )
 ASSUMPTIONS = [
     "formal charges: ARG/LYS/HIP +1, ASP/GLU/CYM/TYM -1, charged termini +1/-1 (vf/topo.py)",
